@@ -316,7 +316,17 @@ def _typed_trees(depth):
     from .. import gen_typed, relational
     F = gen_typed.Fragment("all", funcs=gen_typed.STRING_FUNCS + gen_typed.DATE_FUNCS + ["round", "floor", "ceiling", "second"],
                            neg=True, bare_bool=True, null_left=True, dt_offsets="z")
-    return st.one_of(gen_typed.pred(depth, F), relational.rel_pred(2, relational.RelCfg()))
+    S1 = ("id", "s1", ())
+    named = [
+        ("cmp", "eq", ("call", "substring", (), (("named", "fullstr", S1), ("named", "index", ("lit", "int", "1")),
+                                                 ("named", "nchars", ("lit", "int", "2")))), ("lit", "str", "a")),
+        ("call", "contains", (), (("named", "field", S1), ("named", "substr", ("lit", "str", "a")))),
+        ("cmp", "eq", ("call", "indexof", (), (("named", "first", S1), ("named", "second", ("lit", "str", "a")))), ("lit", "int", "1")),
+        ("cmp", "eq", ("call", "length", (), (("named", "arg", S1),)), ("lit", "int", "1")),
+        ("lambda", ("id", "parts", ()), "any", "p", ("call", "contains", (), (("named", "field", ("path", ("id", "p", ()), "label")),
+                                                                           ("named", "substr", ("lit", "str", "a"))))),
+    ]
+    return st.one_of(gen_typed.pred(depth, F), relational.rel_pred(2, relational.RelCfg()), st.sampled_from(named))
 
 
 def run_task(task, seed, acc):
